@@ -99,7 +99,7 @@ func parseFile(path string) (blocks []*textBlock, data map[string]map[int]string
 		if m := reData.FindStringSubmatch(l); m != nil {
 			off := 0
 			if m[2] != "" {
-				off, _ = strconv.Atoi(m[2])
+				off = parseOff(m[2])
 			}
 			v, err := strconv.ParseUint(m[3], 0, 64)
 			if err != nil {
@@ -181,7 +181,7 @@ func parseFile(path string) (blocks []*textBlock, data map[string]map[int]string
 		for _, in := range b.body {
 			for _, a := range in.args {
 				if m := reFP.FindStringSubmatch(a); m != nil {
-					off, _ := strconv.Atoi(m[2])
+					off := parseOff(m[2])
 					if n, ok := byOff[off]; ok && n != m[1] {
 						die("%s: %s: conflicting names for frame offset %d", path, b.name, off)
 					}
@@ -218,6 +218,7 @@ type state struct {
 	blk   *textBlock
 	data  map[string]map[int]string
 	wrote map[string]bool // storages written
+	outs  []string        // storages the generated definition returns (pre-pass); a store elsewhere would be lost
 	adx   bool            // symbol takes the run-time dispatch flag
 	valid map[string]bool // which of CF/OF/ZF currently hold a value defined by the modelled semantics
 }
@@ -232,6 +233,15 @@ func (s *state) fail(in instr, f string, a ...interface{}) {
 
 func cellName(storage string, off int) string { return fmt.Sprintf("%s_%d", storage, off/8) }
 
+// parseOff reads an offset as the assembler does (0x.., 0o.., and a leading 0 is OCTAL); anything else aborts
+func parseOff(t string) int {
+	v, err := strconv.ParseInt(t, 0, 32)
+	if err != nil {
+		die("offset %q: %v", t, err)
+	}
+	return int(v)
+}
+
 // word value of a source operand
 func (s *state) src(in instr, a string) string {
 	if m := reImm.FindStringSubmatch(a); m != nil {
@@ -239,12 +249,16 @@ func (s *state) src(in instr, a string) string {
 		if err != nil {
 			s.fail(in, "immediate")
 		}
+		if v >= 1<<31 && !(in.op == "MOVQ" && len(in.args) == 2 && isReg(in.args[1])) {
+			// ALU instructions and stores take a sign-extended imm32: the value the CPU uses is not the literal
+			s.fail(in, "immediate >= 2^31 outside MOVQ $imm64, reg (the assembler sign-extends it)")
+		}
 		return strconv.FormatUint(v, 10)
 	}
 	if m := reSB.FindStringSubmatch(a); m != nil {
 		off := 0
 		if m[2] != "" {
-			off, _ = strconv.Atoi(m[2])
+			off = parseOff(m[2])
 		}
 		v, ok := s.data[m[1]][off]
 		if !ok {
@@ -255,7 +269,7 @@ func (s *state) src(in instr, a string) string {
 	if m := reMem.FindStringSubmatch(a); m != nil {
 		off := 0
 		if m[1] != "" {
-			off, _ = strconv.Atoi(m[1])
+			off = parseOff(m[1])
 		}
 		r, ok := s.regs[m[2]]
 		if !ok || r.ptr == "" {
@@ -299,7 +313,7 @@ func (s *state) dst(in instr, a string) string {
 	if m := reMem.FindStringSubmatch(a); m != nil {
 		off := 0
 		if m[1] != "" {
-			off, _ = strconv.Atoi(m[1])
+			off = parseOff(m[1])
 		}
 		r, ok := s.regs[m[2]]
 		if !ok || r.ptr == "" {
@@ -309,6 +323,15 @@ func (s *state) dst(in instr, a string) string {
 			s.fail(in, "offset outside the element")
 		}
 		s.wrote[s.store[r.ptr]] = true
+		okOut := false
+		for _, o := range s.outs {
+			if o == s.store[r.ptr] {
+				okOut = true
+			}
+		}
+		if !okOut {
+			s.fail(in, "store into %s, which the result of the translated routine does not carry", s.store[r.ptr])
+		}
 		return cellName(s.store[r.ptr], off)
 	}
 	s.fail(in, "unsupported destination operand %s", a)
@@ -383,7 +406,7 @@ func (s *state) run(i int, outStor []string) {
 			if m := reMem.FindStringSubmatch(a[1]); m != nil && m[2] == "SP" {
 				off := 0
 				if m[1] != "" {
-					off, _ = strconv.Atoi(m[1])
+					off = parseOff(m[1])
 				}
 				r, ok := s.regs[a[0]]
 				if !ok {
@@ -568,8 +591,20 @@ func (s *state) run(i int, outStor []string) {
 					pass = append(pass, cellName(st, 8*k))
 				}
 			}
+			if i+1 >= len(s.blk.body) || s.blk.body[i+1].op != "RET" {
+				s.fail(in, "CALL not immediately followed by RET (registers and flags after a call are not modelled)")
+			}
 			dstSt := s.store[bases[0]]
 			s.wrote[dstSt] = true
+			okOut := false
+			for _, o := range s.outs {
+				if o == dstSt {
+					okOut = true
+				}
+			}
+			if !okOut {
+				s.fail(in, "call writes %s, which the result of the translated routine does not carry", dstSt)
+			}
 			var outs []string
 			for k := 0; k < 4; k++ {
 				outs = append(outs, cellName(dstSt, 8*k))
@@ -601,7 +636,7 @@ func writtenStorages(b *textBlock, store map[string]string) []string {
 				if m[2] == "SP" {
 					off := 0
 					if m[1] != "" {
-						off, _ = strconv.Atoi(m[1])
+						off = parseOff(m[1])
 					}
 					stack[off] = regs[in.args[0]]
 				} else if p, ok := regs[m[2]]; ok && p != "" {
@@ -668,6 +703,7 @@ func translate(path string, b *textBlock, data map[string]map[int]string, alias 
 	if len(outStor) == 0 {
 		die("%s: %s writes nothing", path, b.name)
 	}
+	s.outs = outStor
 	s.emit("let CF := 0")
 	s.emit("let OF := 0")
 	s.emit("let ZF := false")
